@@ -116,6 +116,17 @@ def _check(ctx, case):
             must(case, '%s attack run() #%d with convergence_step=%d' % (kind, ri + 1, step), an.run, cont)
             tot += run['samples'].shape[0]
             totals.append(tot)
+            # the attributes are read after every run (reading must neither be stale nor disturb the next run)
+            conv_now = an.convergence_traces
+            pts_now = []
+            for n_, _, _ in log:
+                if not pts_now or n_ != pts_now[-1]:
+                    pts_now.append(n_)
+            if conv_now is None or np.asarray(conv_now).shape[-1] != len(pts_now):
+                raise Violation('%s: after run #%d convergence_traces has %s columns for the %d points %s reached so far' % (
+                    kind, ri + 1, None if conv_now is None else np.asarray(conv_now).shape[-1], len(pts_now), pts_now), case)
+            if not np.array_equal(np.asarray(conv_now, dtype='float64')[..., -1], np.asarray(an.scores, dtype='float64'), equal_nan=True):
+                raise Violation('%s: after run #%d the last convergence column differs from the current scores' % (kind, ri + 1), case)
     allx = np.concatenate([r['samples'] for r in case['runs']], axis=0)
     allp = np.concatenate([r['plaintext'] for r in case['runs']], axis=0)
     # convergence points from the history
